@@ -10,10 +10,8 @@ def handleDiff (j : Json) : Json :=
   let a := Diff.J.spec ((j.getObjVal? "a").toOption.getD .null)
   let b := Diff.J.spec ((j.getObjVal? "b").toOption.getD .null)
   let fuel := 200
-  let mlf := Diff.J.bool j "mlf"
-  let deq := Diff.J.bool j "deepEq"
-  let run (o : Nat) := Json.mkObj (Diff.J.outcomeJson (Diff.analyse { rev := o, mlf := mlf, deepEq := deq } fuel a b))
-  let r0 := Diff.analyse { rev := 0, mlf := mlf, deepEq := deq } fuel a b
+  let run (o : Nat) := Json.mkObj (Diff.J.outcomeJson (Diff.analyse { rev := o } fuel a b))
+  let r0 := Diff.analyse { rev := 0 } fuel a b
   Json.mkObj (Diff.J.outcomeJson r0 ++ [("alts", Json.arr #[run 1, run 2, run 3, run 4, run 5])])
 
 def handle (line : String) : Json :=
